@@ -23,7 +23,7 @@ RULE = (
 ASSUMPTIONS = ["accuracy floor of the implementation (safe-division eps 1e-10): relative A-norm error 3e-4 in float64, max(3e-4, 30 cond eps) in float32 (calibrated: observed <= 3e-5 / 5e-6)",
                "tridiagonal comparison restricted to m <= 6 Lanczos steps and cond <= 1e3 (Lanczos coefficients are well conditioned there)"]
 CHUNK = 40
-CASE_TIMEOUT = 300
+CASE_TIMEOUT = 3600
 DTS = {"f64": torch.float64, "f32": torch.float32}
 
 from linear_operator.utils.linear_cg import linear_cg  # noqa: E402
